@@ -29,7 +29,7 @@ REQUIRED = ["Sqfs.C04.readNumber_exact_or_error", "Sqfs.C04.number_roundtrip", "
             "Sqfs.C04.fixpoint_tree_level", "Sqfs.C04.fixpoint_idempotent", "Sqfs.C04.decode_header_spec",
             "Sqfs.C04.read_header_plain_block", "Sqfs.C04.read_header_after_records", "Sqfs.C04.gnu_long_records",
             "Sqfs.C04.gnu_long_name_member", "Sqfs.C04.pax_record_spec", "Sqfs.C04.retarget_spec",
-            "Sqfs.C04.pax_record_roundtrip", "Sqfs.C04.pax_payload_roundtrip"]
+            "Sqfs.C04.pax_record_roundtrip", "Sqfs.C04.pax_payload_roundtrip", "Sqfs.C04.pax_sparse_map_replaces"]
 EXCLUDE = ("lib/tar/src/write_header.c", "lib/tar/src/read_header.c")     # #included by the harness (static helpers)
 U64 = 1 << 64
 
@@ -74,7 +74,13 @@ def run_impl(ctx, harness, lines, timeout=3600):
 
 
 def run_model(ctx, lines):
-    return ctx.driver(["c04"], "\n".join(lines) + "\n", timeout=3600)
+    """one answer line per script line, or the check infrastructure has failed (never a silent pass through a short zip)"""
+    if not lines:
+        return []
+    out = ctx.driver(["c04"], "\n".join(lines) + "\n", timeout=3600)
+    if len(out) != len(lines):
+        raise vlib.CheckFailure("model driver answered %d lines to a script of %d lines (first op: %s)" % (len(out), len(lines), lines[0][:80]))
+    return out
 
 
 # ------------------------------------------------------------------ numbers
@@ -303,7 +309,7 @@ def classify_reader_batch(ctx, op, items, stats):
     variants = [("0", "0", "1"), ("1", "0", "0"), ("0", "0", "0")]
     if not items:
         return []
-    outs = run_model(ctx, ["%sx %s %s %s %s" % (op, r, k, d, line.split(" ", 1)[1]) for line, _ in items for r, k, d in variants])
+    outs = run_model(ctx, ["%sx %s %s %s %s" % (op, r, k, d, line.rsplit(" ", 1)[1]) for line, _ in items for r, k, d in variants])
     res = []
     for n, (line, impl_out) in enumerate(items):
         hit = False
@@ -799,6 +805,19 @@ def sparse_member(rng, name, m, real, data, dialect):
         recs = [pax_record(b"GNU.sparse.size", str(real).encode()), pax_record(b"GNU.sparse.numblocks", str(len(m)).encode()),
                 pax_record(b"GNU.sparse.name", name), pax_record(b"GNU.sparse.map", ",".join("%d,%d" % e for e in m).encode())]
         return pax_member(recs) + mk_header(name=b"GNUSparseFile.0/x", size=len(data), mtime=1542905892) + pad512(data)
+    if dialect == "mix":
+        # GNU.sparse.numbytes records (0.0) and a GNU.sparse.map record (0.1) in one PAX header: the map replaces the list built so far
+        # and a later numbytes record starts a new one (pax_header.c:350-353, fix 56b164f) — whatever comes last wins
+        k = rng.randint(0, len(m))
+        recs = [pax_record(b"GNU.sparse.size", str(real).encode()), pax_record(b"GNU.sparse.numblocks", str(len(m)).encode())]
+        for o, c in m[:k]:
+            recs += [pax_record(b"GNU.sparse.offset", str(o).encode()), pax_record(b"GNU.sparse.numbytes", str(c).encode())]
+        recs.append(pax_record(b"GNU.sparse.map", ",".join("%d,%d" % e for e in (m if rng.random() < 0.5 else m[:max(1, k)])).encode()))
+        for o, c in m[k:] if rng.random() < 0.8 else []:
+            recs += [pax_record(b"GNU.sparse.offset", str(o).encode()), pax_record(b"GNU.sparse.numbytes", str(c).encode())]
+        if rng.random() < 0.3:
+            recs.append(pax_record(b"GNU.sparse.map", ",".join("%d,%d" % e for e in m).encode()))
+        return pax_member(recs) + mk_header(name=name, size=len(data), mtime=1542905892) + pad512(data)
     # 1.0: the map is a decimal text block in front of the data, padded to 512
     txt = ("%d\n" % len(m) + "".join("%d\n%d\n" % e for e in m)).encode()
     blob = pad512(txt) + data
@@ -951,8 +970,10 @@ def gen_reader_member(rng):
     if r < 0.97:                                              # sparse files
         wf = rng.random() < 0.75
         m, real, data = gen_sparse_map(rng, wf)
-        dialect = rng.choice(["old", "0.0", "0.1", "1.0"])
+        dialect = rng.choice(["old", "0.0", "0.1", "1.0", "mix"])
         name = gen_name(rng, rng.choice([5, 60]))
+        if dialect == "mix":                                  # no independent expectation: model = code decides (and ASan: the list that was freed)
+            return sparse_member(rng, name, m, real, data, dialect), None, "sparse-mix-0.0-0.1"
         exp = dict(name=name, size=real, tf=b"0", sparse=m, data=spec_expand(m, real, data), uid=0, gid=0, mtime=1542905892, link=b"", perm=0o644, maj=0, min=0) if wf else None
         return sparse_member(rng, name, m, real, data, dialect), exp, "sparse-" + dialect + ("" if wf else "-malformed")
     # header level damage
@@ -964,6 +985,24 @@ def gen_reader_member(rng):
     if k == "zero":
         return b"\0" * 512, None, "single-zero-block"
     return mk_header(name=b"trunc", size=1000) + b"abc", None, "truncated-data"
+
+
+def dangling_ext_prefix(b):
+    """True when `b` (a proper prefix of one generated member) consists of complete extension records only (header + payload +
+    padding of 'x' / 'g' / 'L' / 'K'), i.e. the cut fell on the record boundary in front of a later header of the member"""
+    pos = 0
+    while pos + 512 <= len(b):
+        h = b[pos:pos + 512]
+        if h[156:157] not in (b"x", b"g", b"L", b"K"):
+            return False
+        try:
+            size = int(h[124:136].rstrip(b" \0") or b"0", 8)
+        except ValueError:
+            return False
+        pos += 512 + (size + 511) // 512 * 512
+        if pos == len(b):
+            return True
+    return False
 
 
 def monitor_decoded(exp, d):
@@ -1022,12 +1061,28 @@ def unit_reader(ctx, harness, stats):
     partial = [(b"", "eof"), (b"\0" * 100, "eof"), (b"\0" * 511, "eof"), (b"\0" * 512 + b"\0" * 10, "eof"), (b"\0" * 1024 + b"x", "eof"),
                (b"a" * 100, "err"), (b"x", "err"), (hdr0[:511], "err"), (hdr0[:300], "err"), (b"\0" * 511 + b"\x01", "err"),
                (b"\0" * 512 + b"xyz", "err"), (b"\0" * 512 + hdr0[:257], "err"), (bytes(rng.randrange(1, 256) for _ in range(rng.randint(1, 511))), "err")]
+    # streams cut inside an extension record or its padding, inside a 'g' record, inside the extension records of an old GNU sparse
+    # header: since /repo 1ef571c `sqfs_istream_skip` reports the early end, so every one of these is an error (never `eof`, never `ok`)
+    nm = gen_name(rng, rng.choice([100, 101, 300, 511, 512, 513, 1000]))
+    for tfx in (b"L", b"K"):
+        rec = gnu_long(tfx, nm)                              # header + payload + padding
+        plen = len(nm) + 1
+        padl = (-plen) % 512
+        cuts = {512 + rng.randint(1, plen - 1), 512 + plen}                                      # inside the payload / all padding missing
+        if padl > 1:
+            cuts |= {len(rec) - 1, len(rec) - rng.randint(1, padl - 1), 512 + plen + 1}          # inside the padding
+        partial += [(rec[:c], "err") for c in sorted(cuts)]
+    xrec = pax_member([pax_record(b"path", nm), pax_record(b"uid", b"1000")])
+    partial += [(xrec[:len(xrec) - 1], "err"), (xrec[:len(xrec) - rng.randint(1, 200)], "err"), (xrec[:512 + rng.randint(1, 50)], "err")]
+    grec = pax_member([pax_record(b"comment", b"c" * rng.choice([10, 480, 600]))], name=b"pax_global_header", typeflag=b"g")
+    partial += [(grec[:len(grec) - 1], "err"), (grec[:512 + rng.randint(1, 20)], "err"), (grec[:512], "err"),
+                (grec + hdr0 + b"\0" * 1024, "ok"), (grec, "eof")]
     plines = ["dec " + tok(b) for b, _ in partial]
     pimpl, pcrash = run_impl(ctx, harness, plines)
     pmodel = run_model(ctx, plines)
     for (b, want), l, a, m in zip(partial, plines, pimpl if not pcrash else ["crash"] * len(plines), pmodel):
         stats["nontrivial"].add(("dec", vlib.sha(l)[:16]))
-        if a != want:
+        if a.split(" ")[0] != want:
             stats["disagreements_checked"] += 1
             report(ctx, "dec-short", "dec:short-record:%s-instead-of-%s" % (a[:8], want), "read_header on a stream ending in a %d-byte record (%s) answers %s, "
                    "must be %s: a damaged/truncated archive is taken for a clean end" % (len(b) % 512, "all zero" if not any(b[-(len(b) % 512 or 512):]) else "not zero", a[:60], want), {"unit": [l]})
@@ -1078,13 +1133,47 @@ def unit_reader(ctx, harness, stats):
                                     (b"\0" * 100, 1), (b"\0" * 512 + b"\0" * 17, 1), (b"\0" * 1024 + b"x", 1),
                                     (b"garbage, not a header", -1), (mk_header(name=b"cut")[:511], -1), (b"\0" * 512 + b"x", -1),
                                     (b"\0" * 511 + b"\x01", -1), (mk_header(name=b"cut", size=5)[:rng.randint(1, 500)], -1)])
-        archives.append((body + end, ms, want_end))
+        cut = None
+        if rng.random() < 0.3:
+            # the archive ends *inside* a member (header, extension record, data, padding) and has no end marker: never a clean end.
+            # Since /repo 1ef571c the skip of data/padding reports the early end too, so all of these are errors.
+            j = rng.randrange(len(ms))
+            start = sum(len(m[0]) for m in ms[:j])
+            mlen = len(ms[j][0])
+            where = rng.choice(["head", "tail", "tail", "tail1", "blocks", "any"])
+            if where == "head":
+                p = rng.randint(1, 511)
+            elif where == "tail":
+                p = mlen - rng.randint(1, 511)                 # inside the padding, or the last bytes of the data
+            elif where == "tail1":
+                p = mlen - 1
+            elif where == "blocks":
+                p = 512 * rng.randint(1, max(1, mlen // 512 - 1)) + rng.choice([0, 0, 1, 511])   # on a record boundary inside the member
+            else:
+                p = rng.randint(1, mlen - 1)
+            p = min(max(p, 1), mlen - 1)
+            if dangling_ext_prefix(ms[j][0][:p]):
+                # only complete extension records ('x'/'g'/'L'/'K') of the member are left and the header they belong to is missing:
+                # read_header takes the end of input at a record boundary for the end of the archive whatever it has accumulated
+                # (an archive needs no end marker) — noted in docs/design/C04.md, expected here as the code's documented behaviour
+                where = "after-ext-records"
+                want_cut_end = 0                              # no expectation of its own: model = code decides
+            else:
+                want_cut_end = -1
+            cut = (j, p, where)
+            body, end, want_end = body[:start + p], b"", want_cut_end
+            ms = ms[:j + 1]
+        archives.append((body + end, ms, want_end, cut))
     # quick tier: the seed archives holding megabyte-sized sparse files (34 KB each, 2 MiB expanded; ~50 s of model time each) go
     # through the iterator in the thorough tier only; their headers are still decoded above, and generated sparse members of every
     # dialect plus sparse-files/gnu-small.tar keep the sparse walk covered
     iter_seeds = [s for s in seed_streams if not ctx.quick() or len(s) < 20000]
     stats["iter_seed_archives"] = len(iter_seeds)
-    lines = ["iter " + tok(a) for a, _, _ in archives] + ["iter " + tok(s) for s in iter_seeds]
+    # the size of the caller's read requests is part of the stream's contract (tar2sqfs reads in blocks, sqfs_istream_read callers
+    # in anything): a third of the archives go through `iterw` with another request size
+    wants = [rng.choice([512, 512, 1, 7, 100, 511, 513, 4096, 4097, 65536]) if rng.random() < 0.35 else 512 for _ in archives]
+    stats["iter_request_sizes"] = {str(w): wants.count(w) for w in sorted(set(wants))}
+    lines = [("iter " if w == 512 else "iterw %d " % w) + tok(a) for (a, _, _, _), w in zip(archives, wants)] + ["iter " + tok(s) for s in iter_seeds]
     impl, crash = run_impl(ctx, harness, lines)
     if crash:
         k, rc, err = crash
@@ -1098,7 +1187,7 @@ def unit_reader(ctx, harness, stats):
         fut_main = ex.submit(run_model, ctx, lines[:na])
         futs = [ex.submit(run_model, ctx, [l]) for l in lines[na:]]
         model = fut_main.result() + [f.result()[0] for f in futs]
-    nsparse = 0
+    nsparse, ncut, cut_hist = 0, 0, {}
     expl = dict(zip([i for i in range(len(lines)) if impl[i] != model[i]],
                     classify_reader_batch(ctx, "iter", [(lines[i], impl[i]) for i in range(len(lines)) if impl[i] != model[i]], stats)))
     for i, l in enumerate(lines):
@@ -1106,7 +1195,15 @@ def unit_reader(ctx, harness, stats):
         stats["nontrivial"].add(("iter", vlib.sha(l)[:16]))
         # specification on the implementation: every well-formed member (all members well-formed) is delivered with its data expanded
         bad = []
-        if ms and all(m[1] is not None for m in ms):
+        cut = archives[i][3] if i < len(archives) else None
+        if cut is not None:
+            ncut += 1
+            cut_hist[cut[2]] = cut_hist.get(cut[2], 0) + 1
+            ents, end = parse_iter(impl[i])
+            if archives[i][2] and end != "end=%d" % archives[i][2]:
+                bad.append("end: %s for an archive cut %d bytes into its last member (%s, %d bytes, no end marker): a truncated archive is taken "
+                           "for a complete one" % (end, cut[1], ms[-1][2], len(ms[-1][0])))
+        elif ms and all(m[1] is not None for m in ms):
             ents, end = parse_iter(impl[i])
             want = [m[1] for m in ms if m[1]["tf"] in (b"0", b"\0", b"1", b"2", b"3", b"4", b"5", b"6")]
             if len(ents) != len(want):
@@ -1137,6 +1234,9 @@ def unit_reader(ctx, harness, stats):
     stats["evaluations"] += 3 * len(lines)
     stats["iter_archives"] = len(lines)
     stats["iter_sparse_files_checked_against_spec"] = nsparse
+    stats["iter_archives_cut_inside_a_member"] = {"total": ncut, "where": cut_hist}
+    if ncut == 0 or nsparse == 0:
+        raise vlib.CheckFailure("iterator generator produced %d cut archives and %d sparse files checked against the specification" % (ncut, nsparse))
 
 
 # ------------------------------------------------------------------ conversion model (process_tarball + fstree_add_generic) vs the real tar2sqfs
@@ -1569,6 +1669,21 @@ def big_sparse_verdict(ctx, tools, d, tag, dialect, salt=0):
     return None
 
 
+def cut_verdict(ctx, tools, d, tag, arc, what):
+    """tar2sqfs on an archive that ends inside a member must fail (non-zero exit status); None if it does"""
+    img = d / ("cut%s.sqfs" % tag)
+    r = vlib.sh([str(tools["tar2sqfs"]), "-q", "-f", "-j", "1", str(img)], input=arc, env=ctx.san_env(), timeout=1800, text=False)
+    try:
+        img.unlink()
+    except OSError:
+        pass
+    if r.returncode >= 90 or r.returncode < 0:
+        return "tar2sqfs aborts (exit %d) on an archive cut %s: %s" % (r.returncode, what, r.stderr.decode("latin1")[-300:])
+    if r.returncode == 0:
+        return "tar2sqfs exits 0 on an archive of %d bytes cut %s: the truncated archive is converted as if it were complete" % (len(arc), what)
+    return None
+
+
 def tool_option_probes(ctx, harness, stats):
     """(a) `tar2sqfs -E <glob>`: exactly the members whose canonical name matches a glob (fnmatch, flags 0: '*' also matches '/') are left
     out, everything else is stored; (b) an xattr with a prefix SquashFS cannot store is skipped with a warning, and refused with
@@ -1609,7 +1724,28 @@ def tool_option_probes(ctx, harness, stats):
         if msg:
             stats["disagreements_checked"] += 1
             report(ctx, "bigsparse", "sparse-4GiB:" + dialect, msg, {"optprobe": {"kind": "big-sparse", "dialect": dialect, "salt": salt}})
+    # (d) archives that end inside a member (no end marker): tar2sqfs must fail.  Since /repo 1ef571c this includes the padding
+    # of the last member / of an extension record and skipped data (`sqfs_istream_skip` reports the early end)
+    f5 = mk_header(name=b"f", size=5, mtime=1542905892, dialect="ustar") + pad512(b"hello")
+    dirh = mk_header(name=b"d/", mode=0o755, typeflag=b"5", mtime=1542905892, dialect="ustar")
+    longn = gen_name(rng, rng.choice([101, 300, 700]))
+    lrec = gnu_long(b"L", longn)
+    unk = mk_header(name=b"vol", size=700, typeflag=b"V", dialect="gnu") + pad512(b"v" * 700)       # unknown record: skipped by the iterator
+    cuts = [(f5[:len(f5) - rng.randint(1, 506)], "inside the padding of its last member"),
+            (dirh + lrec[:len(lrec) - rng.randint(1, (-(len(longn) + 1)) % 512)], "inside the padding of a GNU 'L' record"),
+            (dirh + unk[:512 + rng.randint(1, 1023)], "inside a record the iterator skips"),
+            (dirh + f5 + mk_header(name=b"g", size=1300, mtime=1, dialect="ustar") + b"x" * rng.randint(1, 1299), "inside the data of its last member")]
+    for ci, (arc, what) in enumerate(cuts):
+        msg = cut_verdict(ctx, tools, d, str(ci), arc, what)
+        seen["cut_archives"] = seen.get("cut_archives", 0) + 1
+        stats["evaluations"] += 1
+        stats["nontrivial"].add(("cut", vlib.sha(tok(arc))[:16]))
+        if msg:
+            stats["disagreements_checked"] += 1
+            report(ctx, "cut", "cut-archive:" + what.replace(" ", "-")[:40], msg, {"optprobe": {"kind": "cut", "archive_hex": tok(arc), "what": what}})
     stats["option_probes"] = seen
+    if not (seen["exclude_cases"] and seen["no_skip_cases"] and seen.get("big_sparse_cases") and seen.get("cut_archives")):
+        raise vlib.CheckFailure("option probes did not all run: %s" % seen)
 
 
 # ------------------------------------------------------------------ entry points
@@ -1707,6 +1843,8 @@ def replay(ctx, path):
         o = rp["optprobe"]
         if o["kind"] == "big-sparse":
             msg = big_sparse_verdict(ctx, tools, ctx.scratch, "replay", o["dialect"], o.get("salt", 0))
+        elif o["kind"] == "cut":
+            msg = cut_verdict(ctx, tools, ctx.scratch, "replay", untok(o["archive_hex"]), o["what"])
         elif o["kind"] == "exclude":
             msg, _ = exclude_verdict(ctx, tools, ctx.scratch, "replay", untok(o["archive_hex"]), o["patterns"])
         else:
